@@ -709,6 +709,282 @@ Proof.
     inversion L; subst. apply lcp_same_hd.
 Qed.
 
+(* ---------- the routes of the tree after an insert ---------- *)
+Definition tokb (c : byte) : tok := if Byte.eqb c colon then P else if Byte.eqb c star then A else L c.
+Definition tokz (s : bs) : pattern := map tokb s.
+
+Lemma tokz_app a b : tokz (a ++ b) = tokz a ++ tokz b.
+Proof. apply map_app. Qed.
+Lemma tokz_plain s : plain s -> tokz s = map L s.
+Proof.
+  intros P. apply map_ext_in. intros c Hc. specialize (P c Hc). unfold tokb.
+  rewrite (not_wild_colon _ P), (not_wild_star _ P). reflexivity.
+Qed.
+
+Lemma toks_tokz k pre cs pc ac h : good (Node k pre cs pc ac h) -> toks k pre = tokz pre.
+Proof.
+  intros G. destruct (good_parts _ _ _ _ _ _ G) as (Gk & _). destruct k; cbn in Gk; cbn [toks].
+  - symmetry. apply tokz_plain. tauto.
+  - subst. reflexivity.
+  - destruct Gk as (-> & _). reflexivity.
+Qed.
+
+Definition sub_routes (cs : list node) (pc ac : option node) (h : option nat) (r0 : route) : Prop :=
+  In r0 (own h) \/ (exists c, In c cs /\ In r0 (paths c)) \/ (exists c, pc = Some c /\ In r0 (paths c)) \/
+  (exists c, ac = Some c /\ In r0 (paths c)).
+
+Lemma paths_in k pre cs pc ac h r :
+  In r (paths (Node k pre cs pc ac h)) <-> exists r0, r = prepend (toks k pre) r0 /\ sub_routes cs pc ac h r0.
+Proof.
+  rewrite paths_static. rewrite in_map_iff. unfold sub_routes. split.
+  - intros (r0 & <- & H). exists r0. split; [reflexivity|].
+    apply in_app_or in H. destruct H as [H|H]; [left; exact H|].
+    apply in_app_or in H. destruct H as [H|H].
+    { right; left. apply in_flat_map in H. exact H. }
+    apply in_app_or in H. destruct H as [H|H].
+    { right; right; left. destruct pc as [c|]; [exists c; auto|destruct H]. }
+    right; right; right. destruct ac as [c|]; [exists c; auto|destruct H].
+  - intros (r0 & -> & H). exists r0. split; [reflexivity|].
+    destruct H as [H|[(c & Hc & H)|[(c & -> & H)|(c & -> & H)]]].
+    + apply in_or_app; left; exact H.
+    + apply in_or_app; right; apply in_or_app; left. apply in_flat_map. exists c. auto.
+    + apply in_or_app; right; apply in_or_app; right; apply in_or_app; left. exact H.
+    + apply in_or_app; right; apply in_or_app; right; apply in_or_app; right. exact H.
+Qed.
+
+Lemma prepend_app a b r : prepend a (prepend b r) = prepend (a ++ b) r.
+Proof. destruct r as [p x]. unfold prepend; cbn [fst snd]. rewrite app_assoc. reflexivity. Qed.
+Lemma prepend_inj a r1 r2 : prepend a r1 = prepend a r2 -> r1 = r2.
+Proof. destruct r1 as [p x], r2 as [q y]. unfold prepend; cbn [fst snd]. intros H. inversion H. apply app_inv_head in H1. subst. reflexivity. Qed.
+Lemma prepend_nil_pat a x : prepend a ([], x) = (a, x).
+Proof. unfold prepend; cbn. rewrite app_nil_r. reflexivity. Qed.
+
+Definition added (s : bs) (h : option nat) (r : route) : Prop := exists x, h = Some x /\ r = (tokz s, x).
+Definition fresh_at (s : bs) (h : option nat) (n : node) : Prop := h <> None -> forall y, ~ In (tokz s, y) (paths n).
+
+Lemma own_in h r : In r (own h) <-> exists x, h = Some x /\ r = ([], x).
+Proof. destruct h as [x|]; cbn; split; [intros [<-|[]]; eauto|intros (y & E & ->); inversion E; auto|intros []|intros (y & E & _); discriminate]. Qed.
+
+Lemma paths_in2 k pre cs pc ac h r :
+  In r (paths (Node k pre cs pc ac h)) <->
+  (exists x, h = Some x /\ r = (toks k pre, x)) \/
+  (exists c r0, (In c cs \/ pc = Some c \/ ac = Some c) /\ In r0 (paths c) /\ r = prepend (toks k pre) r0).
+Proof.
+  rewrite paths_in. unfold sub_routes. split.
+  - intros (r0 & -> & [H|[(c & Hc & H)|[(c & Hc & H)|(c & Hc & H)]]]).
+    + left. apply own_in in H. destruct H as (x & E & ->). exists x. split; [exact E|apply prepend_nil_pat].
+    + right. exists c, r0. auto.
+    + right. exists c, r0. auto.
+    + right. exists c, r0. auto.
+  - intros [(x & E & ->)|(c & r0 & Hc & H & ->)].
+    + exists ([], x). split; [symmetry; apply prepend_nil_pat|]. left. apply own_in. eauto.
+    + exists r0. split; [reflexivity|]. destruct Hc as [Hc|[Hc|Hc]]; [right; left|right; right; left|right; right; right]; eauto.
+Qed.
+
+Lemma map_L_app a b : map L (a ++ b) = map L a ++ map L b.
+Proof. apply map_app. Qed.
+
+(* a static edge cut in two holds the same routes *)
+Lemma paths_cut F K cs pc ac ch r :
+  In r (paths (Node Sk F [Node Sk K cs pc ac ch] None None None)) <-> In r (paths (Node Sk (F ++ K) cs pc ac ch)).
+Proof.
+  rewrite paths_in2. cbn [toks]. split.
+  - intros [(x & E & _)|(c & r0 & Hc & H & ->)]; [discriminate|].
+    destruct Hc as [[<-|[]]|[Hc|Hc]]; try discriminate.
+    rewrite paths_in in H. destruct H as (r1 & -> & S). rewrite prepend_app. cbn [toks]. rewrite <- map_L_app.
+    apply paths_in. exists r1. cbn [toks]. auto.
+  - intros H. apply paths_in in H. destruct H as (r1 & -> & S). cbn [toks]. right.
+    exists (Node Sk K cs pc ac ch), (prepend (map L K) r1). split; [left; left; reflexivity|]. split.
+    + apply paths_in. exists r1. cbn [toks]. auto.
+    + rewrite prepend_app, <- map_L_app. reflexivity.
+Qed.
+
+Lemma paths_leaf k pre h r : In r (paths (Node k pre [] None None h)) <-> exists x, h = Some x /\ r = (toks k pre, x).
+Proof.
+  rewrite paths_in2. split; [intros [H|(c & r0 & [[]|[Hc|Hc]] & _)]; try discriminate; exact H|intros H; left; exact H].
+Qed.
+
+Lemma firstn_lcp_full s pre : lcp s pre = length s -> firstn (lcp s pre) pre = s.
+Proof. intros E. rewrite <- (lcp_firstn s pre), E. apply firstn_all. Qed.
+
+Lemma good_child_in k pre cs pc ac h c : good (Node k pre cs pc ac h) -> In c cs -> nkind c = Sk /\ good c.
+Proof.
+  intros G Hin. destruct (good_parts _ _ _ _ _ _ G) as (_ & Gl & _). apply goodl_forall in Gl. rewrite Forall_forall in Gl. auto.
+Qed.
+
+Theorem insert_paths : forall fuel cur s h t, good_or_empty cur -> safe fuel cur s t (is_some h) -> fresh_at s h cur ->
+  forall r, In r (paths (insert fuel cur s h t)) <-> added s h r \/ In r (paths cur).
+Proof.
+  induction fuel as [|f IH]; intros cur s h t GE Sf Fr r; [destruct Sf|].
+  destruct cur as [k pre cs pc ac ch]. cbn [insert safe] in *.
+  destruct (Nat.eqb_spec (lcp s pre) 0) as [Z|Z].
+  { destruct Sf as (E & -> & Pl & Ne). inversion E; subst. unfold added.
+    assert (Emp : forall q, ~ In q (paths (Node Sk [] [] None None None))) by (intros q H; apply paths_leaf in H; destruct H as (x & D & _); discriminate).
+    destruct h as [x|]; rewrite paths_leaf; cbn [toks]; rewrite <- (tokz_plain s Pl); split.
+    - intros H. left. exact H.
+    - intros [H|H]; [exact H|destruct (Emp _ H)].
+    - intros (x & D & _). discriminate.
+    - intros [(x & D & _)|H]; [discriminate|destruct (Emp _ H)]. }
+  assert (G : good (Node k pre cs pc ac ch)).
+  { destruct GE as [E|G]; [|exact G]. inversion E; subst. destruct s; cbn in Z; congruence. }
+  destruct (good_parts _ _ _ _ _ _ G) as (Gk & Gl & ND & Gp & Ga).
+  pose proof (toks_tokz _ _ _ _ _ _ G) as TT.
+  destruct (Nat.ltb_spec (lcp s pre) (length pre)) as [Lp|Lp].
+  - (* split *)
+    destruct Sf as [-> Pl].
+    assert (K : k = Sk).
+    { destruct k; [reflexivity|cbn in Gk; subst pre; cbn in Lp; lia|destruct Gk as (-> & _); cbn in Lp; lia]. }
+    subst k. destruct Gk as [Npre Ppre].
+    set (l := lcp s pre) in *.
+    assert (Cut : forall q, In q (paths (Node Sk (firstn l pre) [Node Sk (skipn l pre) cs pc ac ch] None None None)) <->
+                            In q (paths (Node Sk pre cs pc ac ch))).
+    { intros q. rewrite paths_cut, firstn_skipn. reflexivity. }
+    assert (Ps : plain s).
+    { rewrite <- (firstn_skipn l s). apply plain_app. split; [|exact Pl]. subst l. rewrite lcp_firstn. apply plain_firstn. exact Ppre. }
+    destruct (Nat.eqb_spec l (length s)) as [Ee|Ee].
+    + assert (Fs : firstn l pre = s) by (subst l; apply firstn_lcp_full; exact Ee).
+      rewrite paths_in2. cbn [toks]. rewrite Fs. rewrite <- (tokz_plain s Ps). split.
+      * intros [H|(c & r0 & Hc & H & ->)]; [left; exact H|]. right. apply Cut. rewrite Fs.
+        apply paths_in2. cbn [toks]. right. exists c, r0. rewrite (tokz_plain s Ps). auto.
+      * intros [H|H]; [left; exact H|]. apply Cut in H. rewrite Fs in H. apply paths_in2 in H. cbn [toks] in H.
+        destruct H as [(x & D & _)|H]; [discriminate|]. right. rewrite (tokz_plain s Ps). exact H.
+    + set (new := Node Sk (skipn l s) [] None None h).
+      rewrite paths_in2. cbn [toks]. split.
+      * intros [(x & D & _)|(c & r0 & Hc & H & ->)]; [discriminate|].
+        destruct Hc as [[<-|[<-|[]]]|[Hc|Hc]]; try discriminate.
+        -- right. apply Cut. apply paths_in2. cbn [toks]. right. eexists _, r0. split; [left; left; reflexivity|auto].
+        -- left. subst new. apply paths_leaf in H. destruct H as (x & D & ->). exists x. split; [exact D|].
+           cbn [toks]. unfold prepend; cbn [fst snd]. rewrite <- map_L_app. subst l. rewrite <- lcp_firstn, firstn_skipn.
+           rewrite (tokz_plain s Ps). reflexivity.
+      * intros [(x & D & ->)|H].
+        -- right. exists new, (map L (skipn l s), x). split; [left; right; left; reflexivity|]. split.
+           ++ subst new. apply paths_leaf. exists x. auto.
+           ++ unfold prepend; cbn [fst snd]. rewrite <- map_L_app. subst l. rewrite <- lcp_firstn, firstn_skipn.
+              rewrite (tokz_plain s Ps). reflexivity.
+        -- apply Cut in H. apply paths_in2 in H. cbn [toks] in H. destruct H as [(x & D & _)|(c & r0 & Hc & H & ->)]; [discriminate|].
+           destruct Hc as [[<-|[]]|[Hc|Hc]]; try discriminate.
+           right. eexists _, r0. split; [left; left; reflexivity|auto].
+  - assert (Epre : lcp s pre = length pre) by (pose proof (lcp_le_r s pre); lia).
+    assert (Ss : s = pre ++ skipn (length pre) s).
+    { rewrite <- (firstn_skipn (length pre) s) at 1. f_equal. rewrite <- Epre, lcp_firstn, Epre. apply firstn_all. }
+    destruct (Nat.ltb_spec (lcp s pre) (length s)) as [Ls|Ls].
+    + destruct (skipn (lcp s pre) s) as [|c r0'] eqn:Es; [destruct Sf|].
+      rewrite Epre in Es. rewrite Es in Ss.
+      assert (Ts : tokz s = toks k pre ++ tokz (c :: r0')) by (rewrite Ss at 1; rewrite tokz_app, TT; reflexivity).
+      (* routes of a child, relative to this node *)
+      assert (Lift : forall (ch0 ch1 : node) (sel : node -> Prop),
+                 (forall q, In q (paths ch1) <-> added (c :: r0') h q \/ In q (paths ch0)) -> True) by (intros; exact I).
+      clear Lift.
+      destruct (existsb (has_label c) cs) eqn:Ex.
+      * (* static child *)
+        assert (Step : forall ch0, In ch0 cs -> has_label c ch0 = true ->
+                   forall q, In q (paths (insert f ch0 (c :: r0') h t)) <-> added (c :: r0') h q \/ In q (paths ch0)).
+        { intros ch0 Hin Hl. destruct (good_child_in _ _ _ _ _ _ _ G Hin) as [K0 G0].
+          rewrite Forall_forall in Sf. apply IH; [right; exact G0|apply Sf; assumption|].
+          intros Hn y Hy. apply (Fr Hn y). rewrite Ts. apply paths_in2. right. exists ch0, (tokz (c :: r0'), y). auto. }
+        rewrite !paths_in2. split.
+        -- intros [H|(c1 & q & Hc & H & ->)]; [right; left; exact H|].
+           destruct Hc as [Hc|Hc].
+           ++ apply in_map_iff in Hc. destruct Hc as (ch0 & <- & Hin). destruct (has_label c ch0) eqn:Hl.
+              ** apply (Step ch0 Hin Hl) in H. destruct H as [(x & D & ->)|H].
+                 --- left. exists x. split; [exact D|]. rewrite Ts. reflexivity.
+                 --- right. right. exists ch0, q. auto.
+              ** right. right. exists ch0, q. auto.
+           ++ right. right. exists c1, q. auto.
+        -- intros [(x & D & ->)|[H|(c1 & q & Hc & H & ->)]].
+           ++ destruct (find_some_existsb _ _ Ex) as (ch0 & _ & Hin & Hl). right.
+              exists (insert f ch0 (c :: r0') h t), (tokz (c :: r0'), x). split; [|split].
+              ** left. apply in_map_iff. exists ch0. rewrite Hl. auto.
+              ** apply (Step ch0 Hin Hl). left. exists x. auto.
+              ** rewrite Ts. reflexivity.
+           ++ left. exact H.
+           ++ right. destruct Hc as [Hc|Hc]; [|exists c1, q; auto].
+              destruct (has_label c c1) eqn:Hl.
+              ** exists (insert f c1 (c :: r0') h t), q. split; [left; apply in_map_iff; exists c1; rewrite Hl; auto|].
+                 split; [apply (Step c1 Hc Hl); right; exact H|reflexivity].
+              ** exists c1, q. split; [left; apply in_map_iff; exists c1; rewrite Hl; auto|auto].
+      * destruct (Byte.eqb c colon && is_some pc) eqn:Cp.
+        { destruct pc as [p|]; [|apply andb_true_iff in Cp; destruct Cp; discriminate]. destruct Gp as [Kp G1].
+          assert (Step : forall q, In q (paths (insert f p (c :: r0') h t)) <-> added (c :: r0') h q \/ In q (paths p)).
+          { apply IH; [right; exact G1|exact Sf|].
+            intros Hn y Hy. apply (Fr Hn y). rewrite Ts. apply paths_in2. right. exists p, (tokz (c :: r0'), y). auto. }
+          cbn [option_map]. rewrite !paths_in2. split.
+          - intros [H|(c1 & q & Hc & H & ->)]; [right; left; exact H|].
+            destruct Hc as [Hc|[Hc|Hc]]; [right; right; exists c1, q; auto| |right; right; exists c1, q; auto].
+            inversion Hc; subst c1. apply Step in H. destruct H as [(x & D & ->)|H].
+            + left. exists x. split; [exact D|rewrite Ts; reflexivity].
+            + right. right. exists p, q. auto.
+          - intros [(x & D & ->)|[H|(c1 & q & Hc & H & ->)]].
+            + right. exists (insert f p (c :: r0') h t), (tokz (c :: r0'), x). split; [auto|]. split; [apply Step; left; exists x; auto|rewrite Ts; reflexivity].
+            + left. exact H.
+            + right. destruct Hc as [Hc|[Hc|Hc]]; [exists c1, q; auto| |exists c1, q; auto].
+              inversion Hc; subst c1. exists (insert f p (c :: r0') h t), q. split; [auto|]. split; [apply Step; right; exact H|reflexivity]. }
+        destruct (Byte.eqb c star && is_some ac) eqn:Ca.
+        { destruct ac as [a|]; [|apply andb_true_iff in Ca; destruct Ca; discriminate]. destruct Ga as [Ka G1].
+          assert (Step : forall q, In q (paths (insert f a (c :: r0') h t)) <-> added (c :: r0') h q \/ In q (paths a)).
+          { apply IH; [right; exact G1|exact Sf|].
+            intros Hn y Hy. apply (Fr Hn y). rewrite Ts. apply paths_in2. right. exists a, (tokz (c :: r0'), y). auto. }
+          cbn [option_map]. rewrite !paths_in2. split.
+          - intros [H|(c1 & q & Hc & H & ->)]; [right; left; exact H|].
+            destruct Hc as [Hc|[Hc|Hc]]; [right; right; exists c1, q; auto|right; right; exists c1, q; auto|].
+            inversion Hc; subst c1. apply Step in H. destruct H as [(x & D & ->)|H].
+            + left. exists x. split; [exact D|rewrite Ts; reflexivity].
+            + right. right. exists a, q. auto.
+          - intros [(x & D & ->)|[H|(c1 & q & Hc & H & ->)]].
+            + right. exists (insert f a (c :: r0') h t), (tokz (c :: r0'), x). split; [auto|]. split; [apply Step; left; exists x; auto|rewrite Ts; reflexivity].
+            + left. exact H.
+            + right. destruct Hc as [Hc|[Hc|Hc]]; [exists c1, q; auto|exists c1, q; auto|].
+              inversion Hc; subst c1. exists (insert f a (c :: r0') h t), q. split; [auto|]. split; [apply Step; right; exact H|reflexivity]. }
+        (* a new child *)
+        destruct Sf as [NA Frs].
+        set (new := Node t (c :: r0') [] None None h).
+        assert (Gnew : toks t (c :: r0') = tokz (c :: r0')).
+        { destruct t; cbn [fresh_ok] in Frs; cbn [toks].
+          - symmetry. apply tokz_plain. exact Frs.
+          - inversion Frs; subst. reflexivity.
+          - destruct Frs as [Er _]. inversion Er; subst. reflexivity. }
+        assert (New : forall q, In q (paths new) <-> added (c :: r0') h q).
+        { intros q. subst new. rewrite paths_leaf, Gnew. reflexivity. }
+        assert (Res : forall q, In q (paths (match t with
+                                             | Sk => Node k pre (cs ++ [new]) pc ac ch
+                                             | Pk => Node k pre cs (Some new) ac ch
+                                             | Ak => Node k pre cs pc (Some new) ch end)) <->
+                      (exists x, ch = Some x /\ q = (toks k pre, x)) \/
+                      (exists c1 q0, (In c1 cs \/ pc = Some c1 \/ ac = Some c1 \/ c1 = new) /\ In q0 (paths c1) /\ q = prepend (toks k pre) q0)).
+        { intros q. destruct t; cbn [fresh_ok] in Frs.
+          - rewrite paths_in2. split; (intros [H|(c1 & q0 & Hc & H & ->)]; [left; exact H|right; exists c1, q0; split; [|auto]]).
+            + destruct Hc as [Hc|[Hc|Hc]]; auto. apply in_app_or in Hc. destruct Hc as [Hc|[<-|[]]]; auto.
+            + destruct Hc as [Hc|[Hc|[Hc|Hc]]]; auto; left; apply in_or_app; [left; exact Hc|right; left; symmetry; exact Hc].
+          - inversion Frs; subst. rewrite beqb_refl in Cp. cbn [andb] in Cp. destruct pc; [discriminate|].
+            rewrite paths_in2. split; (intros [H|(c1 & q0 & Hc & H & ->)]; [left; exact H|right; exists c1, q0; split; [|auto]]).
+            + destruct Hc as [Hc|[Hc|Hc]]; auto. inversion Hc; auto.
+            + destruct Hc as [Hc|[Hc|[Hc|Hc]]]; auto; [discriminate|subst c1; auto].
+          - destruct Frs as [Er _]. inversion Er; subst. rewrite beqb_refl in Ca. cbn [andb] in Ca. destruct ac; [discriminate|].
+            rewrite paths_in2. split; (intros [H|(c1 & q0 & Hc & H & ->)]; [left; exact H|right; exists c1, q0; split; [|auto]]).
+            + destruct Hc as [Hc|[Hc|Hc]]; auto. inversion Hc; auto.
+            + destruct Hc as [Hc|[Hc|[Hc|Hc]]]; auto; [discriminate|subst c1; auto]. }
+        rewrite Res, paths_in2. split.
+        -- intros [H|(c1 & q0 & Hc & H & ->)]; [right; left; exact H|].
+           destruct Hc as [Hc|[Hc|[Hc|Hc]]]; try (right; right; exists c1, q0; auto; fail).
+           subst c1. apply New in H. destruct H as (x & D & ->). left. exists x. split; [exact D|rewrite Ts; reflexivity].
+        -- intros [(x & D & ->)|[H|(c1 & q0 & Hc & H & ->)]].
+           ++ right. exists new, (tokz (c :: r0'), x). split; [auto|]. split; [apply New; exists x; auto|rewrite Ts; reflexivity].
+           ++ left. exact H.
+           ++ right. exists c1, q0. destruct Hc as [Hc|[Hc|Hc]]; auto.
+    + (* the node exists *)
+      assert (Es : s = pre).
+      { assert (Ll : lcp s pre = length s) by (pose proof (lcp_le_l s pre); lia).
+        rewrite <- (firstn_all s), <- Ll, lcp_firstn, Epre, firstn_all. reflexivity. }
+      subst s. destruct h as [x|].
+      * assert (Cn : ch = None).
+        { destruct ch as [y|]; [|reflexivity]. exfalso. apply (Fr ltac:(discriminate) y).
+          apply paths_in2. left. exists y. rewrite TT. auto. }
+        subst ch. rewrite !paths_in2. rewrite TT. split.
+        -- intros [(y & D & ->)|H]; [left; exists y; auto|right; right; exact H].
+        -- intros [(y & D & ->)|[(y & D & _)|H]]; [left; exists y; auto|discriminate|right; exact H].
+      * split; [intros H; right; exact H|intros [(y & D & _)|H]; [discriminate|exact H]].
+Qed.
+
 (* ---------- add_route ---------- *)
 Definition strong (root : node) : Prop := good root /\ nkind root = Sk /\ nlabel root = Some sl.
 Definition at_ok (root : node) (path : bs) (i0 : nat) : Prop :=
@@ -729,14 +1005,53 @@ Proof. intros <-. rewrite firstn_app, Nat.sub_diag, firstn_all. cbn. apply app_n
 Lemma skipn_prefix_len {A} (n : nat) (l1 l2 : list A) : length l1 = n -> skipn n (l1 ++ l2) = l2.
 Proof. intros <-. apply skipn_app_len. Qed.
 
-Theorem add_route_ok : forall f root path i0 h,
+(* the text add_route finally inserts together with the handler: the path with the wildcard names removed *)
+Fixpoint erase (fuel : nat) (path : bs) (i0 : nat) : bs :=
+  match fuel with
+  | O => path
+  | S f =>
+      match index_wild (skipn i0 path) with
+      | None => path
+      | Some d =>
+          let i := i0 + d in
+          match nth_error path i with
+          | Some c =>
+              if Byte.eqb c colon then
+                let rest := drop_seg (skipn (S i) path) in
+                let path' := firstn (S i) path ++ rest in
+                match rest with [] => path' | _ => erase f path' (S i) end
+              else firstn (S i) path
+          | None => path
+          end
+      end
+  end.
+
+Definition routes_plus (n' n : node) (p : pattern) (h : nat) : Prop :=
+  forall r, In r (paths n') <-> r = (p, h) \/ In r (paths n).
+Definition routes_same (n' n : node) : Prop := forall r, In r (paths n') <-> In r (paths n).
+
+Lemma insert_none_same big root s t : good_or_empty root -> safe big root s t false -> routes_same (insert big root s None t) root.
+Proof.
+  intros GE Sf r. rewrite (insert_paths big root s None t GE Sf); [|intros H; congruence].
+  split; [intros [(x & D & _)|H]; [discriminate|exact H]|intros H; right; exact H].
+Qed.
+Lemma insert_some_plus big root s t h : good_or_empty root -> safe big root s t true ->
+  (forall y, ~ In (tokz s, y) (paths root)) -> routes_plus (insert big root s (Some h) t) root (tokz s) h.
+Proof.
+  intros GE Sf Fr r. rewrite (insert_paths big root s (Some h) t GE Sf); [|intros _; exact Fr].
+  split; [intros [(x & D & ->)|H]; [inversion D; left; reflexivity|right; exact H]|intros [->|H]; [left; exists h; auto|right; exact H]].
+Qed.
+
+Theorem add_route_full : forall f root path i0 h,
   root_ok root -> (0 < f \/ strong root) ->
   (exists r, path = sl :: r) -> (exists r, skipn i0 path = sl :: r) -> at_ok root path i0 ->
-  strong (add_route f root path i0 h).
+  strong (add_route f root path i0 h) /\
+  (length path - i0 < f -> (forall y, ~ In (tokz (erase f path i0), y) (paths root)) ->
+   routes_plus (add_route f root path i0 h) root (tokz (erase f path i0)) h).
 Proof.
   induction f as [|f IH]; intros root path i0 h RO FS (r0 & Ep) (r1 & Es) AT.
-  { destruct FS as [F|S]; [lia|exact S]. }
-  cbn [add_route]. set (big := S (length path)).
+  { split; [destruct FS as [F|S]; [lia|exact S]|intros L; lia]. }
+  cbn [add_route erase]. set (big := S (length path)).
   assert (Lpath : length path < big) by (subst big; lia).
   destruct (index_wild (skipn i0 path)) as [d|] eqn:IW.
   2:{ (* no wildcard left: the whole path, with its handler *)
@@ -746,7 +1061,8 @@ Proof.
       - cbn [skipn] in IW. rewrite Ep in *. apply root_safe_plain; assumption.
       - pose proof (bnd_safe_ext fb root (firstn i0 path) k0 (skipn i0 path) Sk true G B NA) as X.
         rewrite firstn_skipn in X. apply X; [split; [exact IW|rewrite Es; discriminate]|exact Lpath]. }
-    apply (root_insert_strong big root path r0 (Some h) Sk RO Ep Sf Lpath). }
+    split; [apply (root_insert_strong big root path r0 (Some h) Sk RO Ep Sf Lpath)|].
+    intros _ Fr. apply insert_some_plus; [apply root_ok_goe; exact RO|exact Sf|exact Fr]. }
   destruct (index_wild_spec _ _ IW) as (Pd & c & Nc & Wc).
   assert (Dpos : 0 < d) by (rewrite Es in IW; apply (index_wild_pos _ _ IW)).
   rewrite nth_error_skipn in Nc. rewrite Nc.
@@ -769,6 +1085,7 @@ Proof.
     - rewrite E1. apply (bnd_safe_ext fb root (firstn i0 path) k0 x1 Sk false G B NA); [split; assumption|].
       rewrite <- E1. exact L1. }
   destruct (root_insert_strong big root s1 r' None Sk RO S1sl Sf1 L1) as (St1 & k1 & B1).
+  pose proof (insert_none_same big root s1 Sk (root_ok_goe _ RO) Sf1) as Same1.
   set (root1 := insert big root s1 None Sk) in *.
   assert (NA1 : k1 <> Ak).
   { intros ->. destruct (bnd_any_last _ _ _ (proj1 St1) B1) as (s0 & E0). rewrite E1 in E0.
@@ -784,7 +1101,11 @@ Proof.
     { intros hs. apply (bnd_safe_ext big root1 s1 k1 [colon] Pk hs (proj1 St1) B1 NA1); [reflexivity|exact LS1]. }
     destruct rest as [|y rr] eqn:Er.
     + rewrite FS1, app_nil_r.
-      apply (root_insert_strong big root1 (s1 ++ [colon]) (r' ++ [colon]) (Some h) Pk (strong_root_ok _ St1) Ssl (SfP true) LS1).
+      split; [apply (root_insert_strong big root1 (s1 ++ [colon]) (r' ++ [colon]) (Some h) Pk (strong_root_ok _ St1) Ssl (SfP true) LS1)|].
+      intros _ Fr q.
+      pose proof (insert_some_plus big root1 (s1 ++ [colon]) Pk h (or_intror (proj1 St1)) (SfP true)
+                    (fun y Hy => Fr y (proj1 (Same1 _) Hy))) as Pl.
+      rewrite (Pl q), (Same1 q). reflexivity.
     + assert (Rsl : exists rr', y :: rr = sl :: rr').
       { destruct (drop_seg_form (skipn (S i) path)) as [E|(rr' & E)]; fold rest in E; rewrite Er in E; [discriminate|eauto]. }
       destruct Rsl as (rr' & Rsl).
@@ -794,24 +1115,42 @@ Proof.
       { subst path'. rewrite (firstn_prefix_len (S i) _ _ LenF). exact FS1. }
       rewrite F'.
       destruct (root_insert_strong big root1 (s1 ++ [colon]) (r' ++ [colon]) None Pk (strong_root_ok _ St1) Ssl (SfP false) LS1) as (St2 & k2 & B2).
+      pose proof (insert_none_same big root1 (s1 ++ [colon]) Pk (or_intror (proj1 St1)) (SfP false)) as Same2.
       set (root2 := insert big root1 (s1 ++ [colon]) None Pk) in *.
       assert (NA2 : k2 <> Ak).
       { intros ->. destruct (bnd_any_last _ _ _ (proj1 St2) B2) as (s0 & E0).
         apply app_inj_tail in E0. destruct E0 as [_ E0]. discriminate. }
-      apply IH.
+      assert (Lp' : length path' <= length path).
+      { subst path'. rewrite app_length, LenF, <- Er. fold rest. subst rest.
+        pose proof (drop_seg_len (skipn (S i) path)) as D. rewrite skipn_length in D. lia. }
+      destruct (IH root2 path' (S i) h) as (StR & PR).
       * apply strong_root_ok. exact St2.
       * right. exact St2.
       * exists (r' ++ [colon] ++ y :: rr). subst path'. rewrite FS1, S1sl. cbn [app]. rewrite <- app_assoc. reflexivity.
       * exists rr'. subst path'. rewrite (skipn_prefix_len (S i) _ _ LenF). exact Rsl.
       * right. split; [lia|]. split; [exact (proj1 St2)|]. exists k2, big. rewrite F'. split; [exact B2|exact NA2].
+      * split; [exact StR|]. intros Lf Fr q.
+        assert (Lf' : length path' - S i < f) by (subst i; lia).
+        pose proof (PR Lf' (fun y0 Hy => Fr y0 (proj1 (Same1 _) (proj1 (Same2 _) Hy)))) as Pl.
+        rewrite (Pl q), (Same2 q), (Same1 q). reflexivity.
   - (* the catch-all ends the route *)
     assert (Cs : c = star).
     { unfold wildb in Wc. rewrite Cc in Wc. cbn [orb] in Wc. apply beqb_eq. exact Wc. }
     subst c. rewrite FS1.
     assert (SfA : safe big root1 (s1 ++ [star]) Ak true).
     { apply (bnd_safe_ext big root1 s1 k1 [star] Ak true (proj1 St1) B1 NA1); [split; reflexivity|exact LS1]. }
-    apply (root_insert_strong big root1 (s1 ++ [star]) (r' ++ [star]) (Some h) Ak (strong_root_ok _ St1) Ssl SfA LS1).
+    split; [apply (root_insert_strong big root1 (s1 ++ [star]) (r' ++ [star]) (Some h) Ak (strong_root_ok _ St1) Ssl SfA LS1)|].
+    intros _ Fr q.
+    pose proof (insert_some_plus big root1 (s1 ++ [star]) Ak h (or_intror (proj1 St1)) SfA
+                  (fun y Hy => Fr y (proj1 (Same1 _) Hy))) as Pl.
+    rewrite (Pl q), (Same1 q). reflexivity.
 Qed.
+
+Theorem add_route_ok : forall f root path i0 h,
+  root_ok root -> (0 < f \/ strong root) ->
+  (exists r, path = sl :: r) -> (exists r, skipn i0 path = sl :: r) -> at_ok root path i0 ->
+  strong (add_route f root path i0 h).
+Proof. intros. apply add_route_full; assumption. Qed.
 
 Theorem register_ok root path h : root_ok root -> (exists r, path = sl :: r) -> strong (register root path h).
 Proof.
@@ -841,4 +1180,158 @@ Proof.
   induction order as [|i order IH]; intros pats root St V; cbn [build_from]; [exact St|].
   apply IH; [|intros j Hj; apply V; right; exact Hj].
   apply register_ok; [apply strong_root_ok; exact St|apply V; left; reflexivity].
+Qed.
+
+
+(* ---------- the erased text spells the pattern of the route ---------- *)
+Lemma tokenize_fst_cons0 f c r : fst (tokenize (S f) (c :: r)) =
+  if Byte.eqb c colon then P :: fst (tokenize f (drop_seg r)) else if Byte.eqb c star then [A] else L c :: fst (tokenize f r).
+Proof.
+  cbn [tokenize]. destruct (Byte.eqb c colon).
+  - destruct (tokenize f (drop_seg r)); reflexivity.
+  - destruct (Byte.eqb c star); [reflexivity|]. destruct (tokenize f r); reflexivity.
+Qed.
+
+Lemma tok_fuel : forall f1 f2 s, length s < f1 -> length s < f2 -> fst (tokenize f1 s) = fst (tokenize f2 s).
+Proof.
+  induction f1 as [|f1 IH]; intros f2 s L1 L2; [lia|]. destruct f2 as [|f2]; [lia|].
+  destruct s as [|c r]; [reflexivity|]. cbn [length] in *. rewrite !tokenize_fst_cons0.
+  pose proof (drop_seg_len r) as D.
+  destruct (Byte.eqb c colon); [f_equal; apply IH; lia|].
+  destruct (Byte.eqb c star); [reflexivity|]. f_equal. apply IH; lia.
+Qed.
+
+Lemma pattern_of_nil : pattern_of [] = [].
+Proof. reflexivity. Qed.
+Lemma pattern_of_cons c r : pattern_of (c :: r) =
+  if Byte.eqb c colon then P :: pattern_of (drop_seg r) else if Byte.eqb c star then [A] else L c :: pattern_of r.
+Proof.
+  unfold pattern_of. cbn [length]. rewrite tokenize_fst_cons0. pose proof (drop_seg_len r) as D.
+  destruct (Byte.eqb c colon); [f_equal; apply tok_fuel; lia|]. reflexivity.
+Qed.
+
+Lemma pattern_of_plain_app : forall x rest, plain x -> pattern_of (x ++ rest) = map L x ++ pattern_of rest.
+Proof.
+  induction x as [|c x IH]; intros rest P; [reflexivity|]. apply plain_cons in P. destruct P as [Wc Px].
+  cbn [app map]. rewrite pattern_of_cons, (not_wild_colon _ Wc), (not_wild_star _ Wc). f_equal. apply IH. exact Px.
+Qed.
+Lemma pattern_of_plain x : plain x -> pattern_of x = map L x.
+Proof. intros P. rewrite <- (app_nil_r x) at 1. rewrite pattern_of_plain_app by exact P. rewrite pattern_of_nil. apply app_nil_r. Qed.
+
+Lemma skipn_add {A} (a b : nat) (l : list A) : skipn a (skipn b l) = skipn (b + a) l.
+Proof.
+  revert l; induction b as [|b IH]; intros l; [reflexivity|].
+  destruct l; [rewrite !skipn_nil; reflexivity|]. cbn [skipn Nat.add]. apply IH.
+Qed.
+
+Lemma skipn_nth_cons {A} (i : nat) (l : list A) c : nth_error l i = Some c -> skipn i l = c :: skipn (S i) l.
+Proof.
+  revert l; induction i as [|i IH]; intros l H; destruct l as [|x l]; try discriminate.
+  - inversion H; reflexivity.
+  - cbn [nth_error] in H. cbn [skipn]. apply IH. exact H.
+Qed.
+
+Lemma erase_pattern : forall f path i0, length path - i0 < f ->
+  tokz (erase f path i0) = tokz (firstn i0 path) ++ pattern_of (skipn i0 path).
+Proof.
+  induction f as [|f IH]; intros path i0 Lf; [lia|]. cbn [erase].
+  destruct (index_wild (skipn i0 path)) as [d|] eqn:IW.
+  2:{ apply index_wild_none in IW. rewrite (pattern_of_plain _ IW), <- (tokz_plain _ IW), <- tokz_app, firstn_skipn. reflexivity. }
+  destruct (index_wild_spec _ _ IW) as (Pd & c & Nc & Wc).
+  rewrite nth_error_skipn in Nc. rewrite Nc.
+  pose proof (skipn_nth_cons (i0 + d) path c Nc) as Sk0.
+  set (i := i0 + d) in *.
+  assert (Ilt : i < length path) by (apply nth_error_Some; congruence).
+  assert (Split : skipn i0 path = firstn d (skipn i0 path) ++ c :: skipn (S i) path).
+  { rewrite <- (firstn_skipn d (skipn i0 path)) at 1. f_equal. rewrite skipn_add. subst i. exact Sk0. }
+  assert (FS : firstn (S i) path = firstn i0 path ++ firstn d (skipn i0 path) ++ [c]).
+  { rewrite (firstn_S_nth i path c Nc). subst i. rewrite firstn_add, <- app_assoc. reflexivity. }
+  replace (pattern_of (skipn i0 path)) with (pattern_of (firstn d (skipn i0 path) ++ c :: skipn (S i) path))
+    by (rewrite <- Split; reflexivity).
+  rewrite (pattern_of_plain_app _ _ Pd), pattern_of_cons.
+  destruct (Byte.eqb c colon) eqn:Cc.
+  - apply beqb_eq in Cc. subst c.
+    destruct (drop_seg (skipn (S i) path)) as [|y rr] eqn:Er.
+    + rewrite app_nil_r, FS, !tokz_app, (tokz_plain _ Pd), pattern_of_nil. reflexivity.
+    + set (path' := firstn (S i) path ++ y :: rr).
+      assert (LenF : length (firstn (S i) path) = S i) by (apply (firstn_len_lt i path colon Nc)).
+      assert (Lp' : length path' <= length path).
+      { subst path'. rewrite app_length, LenF, <- Er. pose proof (drop_seg_len (skipn (S i) path)) as D. rewrite skipn_length in D. lia. }
+      rewrite IH by (subst i; lia).
+      subst path'. rewrite (firstn_prefix_len (S i) _ _ LenF), (skipn_prefix_len (S i) _ _ LenF).
+      rewrite FS, !tokz_app, (tokz_plain _ Pd), <- !app_assoc. reflexivity.
+  - assert (Cs : c = star).
+    { unfold wildb in Wc. rewrite Cc in Wc. cbn [orb] in Wc. apply beqb_eq. exact Wc. }
+    subst c. rewrite beqb_refl. rewrite FS, !tokz_app, (tokz_plain _ Pd). reflexivity.
+Qed.
+
+Theorem register_routes root path h : root_ok root -> (exists r, path = sl :: r) ->
+  (forall y, ~ In (pattern_of path, y) (paths root)) ->
+  strong (register root path h) /\ routes_plus (register root path h) root (pattern_of path) h.
+Proof.
+  intros RO (r & E) Fr. unfold register.
+  assert (Et : tokz (erase (S (length path)) path 0) = pattern_of path).
+  { rewrite erase_pattern by lia. reflexivity. }
+  destruct (add_route_full (S (length path)) root path 0 h RO) as (St & Pl); [left; lia|eauto|cbn [skipn]; eauto|left; reflexivity|].
+  split; [exact St|]. rewrite <- Et. apply Pl; [lia|]. rewrite Et. exact Fr.
+Qed.
+
+Definition declared (pats : list bs) (order : list nat) : list route :=
+  map (fun i => (pattern_of (nth i pats []), i)) order.
+
+Theorem build_routes : forall order pats root, root_ok root ->
+  (forall i, In i order -> exists r, nth i pats [] = sl :: r) ->
+  NoDup (map (fun i => pattern_of (nth i pats [])) order) ->
+  (forall i y, In i order -> ~ In (pattern_of (nth i pats []), y) (paths root)) ->
+  forall r, In r (paths (build_from root pats order)) <-> In r (declared pats order) \/ In r (paths root).
+Proof.
+  induction order as [|i order IH]; intros pats root RO V ND Fr r; cbn [build_from declared map].
+  - split; [intros H; right; exact H|intros [[]|H]; exact H].
+  - cbn [map] in ND. inversion ND as [|? ? Ni NDr]; subst.
+    destruct (register_routes root (nth i pats []) i RO (V i (or_introl eq_refl))) as (St & Pl).
+    { intros y. apply Fr. left. reflexivity. }
+    rewrite (IH pats (register root (nth i pats []) i) (strong_root_ok _ St)); [|intros j Hj; apply V; right; exact Hj|exact NDr|].
+    + fold (declared pats order). rewrite (Pl r). cbn [In]. split; [intros [H|[H|H]]|intros [[H|H]|H]]; auto.
+    + intros j y Hj Hin. apply Pl in Hin. destruct Hin as [Hin|Hin].
+      * inversion Hin. apply Ni. apply in_map_iff. exists j. split; [cbv beta; congruence|exact Hj].
+      * apply (Fr j y); [right; exact Hj|exact Hin].
+Qed.
+
+Lemma paths_empty_root r : ~ In r (paths empty_root).
+Proof. intros H. apply paths_leaf in H. destruct H as (x & D & _). discriminate. Qed.
+
+(* the tree built from any list of distinct route patterns holds exactly the declared routes *)
+Theorem built_tree_routes pats order :
+  (forall i, In i order -> exists r, nth i pats [] = sl :: r) ->
+  NoDup (map (fun i => pattern_of (nth i pats [])) order) ->
+  forall r, In r (paths (build_from empty_root pats order)) <-> In r (declared pats order).
+Proof.
+  intros V ND r. rewrite (build_routes order pats empty_root (or_introl eq_refl) V ND).
+  - split; [intros [H|H]; [exact H|destruct (paths_empty_root _ H)]|intros H; left; exact H].
+  - intros i y _ H. exact (paths_empty_root _ H).
+Qed.
+
+(* ... and the lookup in it is the priority search over the declared routes *)
+Theorem built_tree_lookup pats order s f :
+  (forall i, In i order -> exists r, nth i pats [] = sl :: r) ->
+  NoDup (map (fun i => pattern_of (nth i pats [])) order) -> order <> [] ->
+  short (S f) (declared pats order) ->
+  ft (build_from empty_root pats order) s = option_map fst (find (S f) (declared pats order) s).
+Proof.
+  intros V ND Ne Sh. set (t := build_from empty_root pats order).
+  pose proof (built_tree_routes pats order V ND) as Same. fold t in Same.
+  assert (Sh' : short (S f) (paths t)) by (intros p h Hin; apply (Sh p h); apply Same; exact Hin).
+  assert (St : strong t).
+  { subst t. destruct order as [|i order]; [congruence|]. cbn [build_from].
+    apply build_strong; [apply register_ok; [left; reflexivity|apply V; left; reflexivity]|intros j Hj; apply V; right; exact Hj]. }
+  destruct St as (G & K & _).
+  rewrite (radix_lookup_is_the_search t s f (good_wf _ G) K Sh'). f_equal.
+  symmetry. apply find_order_independent; [intros r; symmetry; apply Same| | |exact Sh].
+  - intros p a b Ha Hb. unfold declared in Ha, Hb. apply in_map_iff in Ha. apply in_map_iff in Hb.
+    destruct Ha as (i & Ei & Hi), Hb as (j & Ej & Hj). cbv beta in Ei, Ej.
+    assert (IJ : i = j).
+    { apply (nodup_map_inj (fun i => pattern_of (nth i pats [])) order i j ND Hi Hj). cbv beta.
+      injection Ei as E1 E2. injection Ej as E3 E4. exact (eq_trans E1 (eq_sym E3)). }
+    injection Ei as E1 E2. injection Ej as E3 E4. subst. reflexivity.
+  - intros p h Hin. unfold declared in Hin. apply in_map_iff in Hin. destruct Hin as (i & Ei & _). inversion Ei. apply tokenize_wf.
 Qed.
